@@ -1,5 +1,36 @@
+/-
+C15 — The ref store behaves as a map from exact names to commits with faithful logs.
+Property theorems only. Model: Model/RefStore.lean (every SQL statement of pkg/ref/sql/store.go as a
+list operation, the helper layer of pkg/ref/refs.go on top). Spec: Spec/RefStore.lean (`ASt`, a plain
+map with per-name append-only logs; `stepA`).
+-/
 import WrglModel.Model.RefStore
 import WrglModel.Spec.RefStore
+import WrglModel.Lemmas.C15
+import WrglModel.Gen.Facts
 namespace Wrgl
-theorem C15_placeholder : True := trivial
+
+/-- tie to the source: `filterQuery` compares the literal prefix (no LIKE/GLOB pattern) -/
+theorem C15_fact_literalPrefix : Facts.refFilterIsLiteralPrefix = true := by decide
+
+/-- Refinement: every sequence of set, logged set, get, delete, filter, filter-keys, rename, copy,
+    log read, list-by-prefix, bulk delete and bulk rename on the SQL model returns, step by step,
+    exactly what a plain name-to-value map with per-name append-only logs returns. In particular
+    prefix operations touch exactly the names that literally start with the prefix, operations on
+    one name never affect another, each log entry's old value is the value held just before, logs
+    read newest-first, rename and copy carry the log. -/
+theorem C15_refines (ops : List ROp) :
+    runC Facts.refFilterIsLiteralPrefix { refs := [], logs := [] } ops = runA { vals := [], logs := [] } ops := by
+  rw [C15_fact_literalPrefix]
+  exact refstore_refines ops
+
+/-- With `LIKE` patterns (the code before the repair) the store is not such a map: `_` matches any
+    character. Kept as the witness that the fact above carries the property. -/
+theorem C15_like_is_not_prefix :
+    runC false { refs := [], logs := [] }
+      [.set "remotes/myXrepo/x" [1], .filterKey ["remotes/my_repo/"] []] ≠
+    runA { vals := [], logs := [] }
+      [.set "remotes/myXrepo/x" [1], .filterKey ["remotes/my_repo/"] []] :=
+  like_is_not_prefix
+
 end Wrgl
